@@ -125,9 +125,17 @@ pub fn gen_string(t: &mut Tape, sw: &GdsSwarm) -> String {
             let mut n = 0u64;
             while n < len {
                 if len > 1000 && n >= 16 {
-                    // bulk filler without draws: keeps tapes short for near-limit strings
-                    s.push('x');
-                    n += 1;
+                    // bulk filler without draws: keeps tapes short for near-limit strings. With UTF-8 enabled the filler
+                    // mixes 1-, 2-, 3- and 4-byte characters (period 11 bytes), so that, over the drawn head of the
+                    // string, every 4 KiB / 8 KiB boundary falls inside a character in some runs
+                    let c = if sw.utf8 { ['x', 'é', 'y', '日', '😀'][(s.chars().count() % 5) as usize] } else { 'x' };
+                    if n + c.len_utf8() as u64 > len {
+                        s.push('x');
+                        n += 1;
+                    } else {
+                        n += c.len_utf8() as u64;
+                        s.push(c);
+                    }
                     continue;
                 }
                 let c = if sw.utf8 && t.chance(1, 6) {
@@ -157,10 +165,18 @@ pub fn gen_string(t: &mut Tape, sw: &GdsSwarm) -> String {
 
 /// Doubles inside the GDSII range [16^-64, 16^63) (or zero), boundary-heavy
 pub fn gen_real(t: &mut Tape, hard: bool) -> f64 {
-    let cat = if hard { t.draw(10) } else { t.draw(3) };
+    let cat = if hard { t.draw(11) } else { t.draw(3) };
     let sign = if t.chance(1, 4) { -1.0 } else { 1.0 };
     let v: f64 = match cat {
         0 => return 0.0,
+        10 => {
+            // below the smallest normalised value 16^-65: M * 2^-312 with M < 2^52 is stored exactly with exponent
+            // field 0 and leading zero digits in the mantissa
+            let top = t.draw(52);
+            let m = (1u64 << top) | (t.bits() & ((1u64 << top) - 1));
+            let m = if t.chance(1, 3) { 1u64 << top } else { m };
+            return sign * (m as f64) * 2f64.powi(-312);
+        }
         1 | 2 => *t.pick(&[1e-3, 1e-9, 1.0, 90.0, 180.0, 270.0, 0.5, 2.0, 1e-6, 45.0, 0.001, 1e-12, 360.0, 1.5, 0.25, 1e3]),
         3 | 4 => {
             // power of two +- a few ulps
@@ -193,7 +209,7 @@ pub fn gen_real(t: &mut Tape, hard: bool) -> f64 {
         }
     };
     let a = v.abs();
-    let lo = 2f64.powi(-256);
+    let lo = 2f64.powi(-260);
     let hi = 2f64.powi(252);
     if !(a >= lo && a < hi) {
         return sign * 1.0;
